@@ -242,8 +242,14 @@ pub fn sha1_concat(parts: &[&[u8]]) -> [u8; 20] {
     r
 }
 
+/// The bytes of a server id as the game hashes them: `serverId.getBytes("ISO_8859_1")`, one byte per
+/// character up to U+00FF, `?` for every character beyond (one per code point).
+pub fn minecraft_id_bytes(server_id: &str) -> Vec<u8> {
+    server_id.chars().map(|c| if (c as u32) <= 0xff { c as u32 as u8 } else { b'?' }).collect()
+}
+
 pub fn minecraft_hash_ref(server_id: &str, shared_secret: &[u8], encoded_public: &[u8]) -> String {
-    signed_hex(&sha1_concat(&[server_id.as_bytes(), shared_secret, encoded_public]))
+    signed_hex(&sha1_concat(&[&minecraft_id_bytes(server_id), shared_secret, encoded_public]))
 }
 
 // ---------------------------------------------------------------------------------------------
